@@ -23,6 +23,7 @@ THEOREMS = [
     "RedunModel.C31.within_limit_accepted",
     "RedunModel.C31.never_a_different_value",
     "RedunModel.C31.missing_is_absent",
+    "RedunModel.C31.outage_is_absent",
     "RedunModel.C31.missing_file_cache_is_absent",
     "RedunModel.C31.record_twice",
     "RedunModel.C31.record_again_same_answer",
@@ -45,13 +46,17 @@ ASSUMPTIONS = [
     "store may be attached to a backend that had none, never detached (a placeholder row without a configured store "
     "raises AssertionError: mirrored by the model, not generated)",
     "bytes go missing only by deleting the whole store file / FileCache file of one value (no partial or altered files)",
-    "single process, no concurrent recorder (the IntegrityError branch of record_value is not exercised)",
+    "two backends (own engine, session and ValueStore object each) share one sqlite file and one store directory and take "
+    "turns, never concurrently (the IntegrityError branch of record_value is not exercised); the model has one shared "
+    "state and no per-backend state; a read may happen while the store directory is moved away (absent then; the state "
+    "is unchanged and later reads must answer from the store again)",
     "the oracle demands of a re-record after deleted bytes: a call that offloads (store configured, getsizeof >= min) "
     "restores the store object, any call restores the FileCache file — then the value must read back (rerecord_heals); at "
     "workflow level (real Scheduler, value store, thread executor): run, run, delete all store objects, run, run, run must "
     "execute the task 1,0,1,0,0 times with the same result",
 ]
-RULE = ("histories (6-14 ops) of record / get / delete store file / delete FileCache file / attach store over 3-4 values per "
+RULE = ("histories (6-14 ops) of record / get (by either of two backends sharing the database and the store) / get during a "
+        "store outage / delete store file / delete FileCache file / attach store over 3-4 values per "
         "case, thresholds chosen at len(data)+33 -1/0/+1, 0, 100, huge (min) and len(data) -1/0/+1, small, default (max); "
         "after every op the reply and the placement of every value (row inline / placeholder, store files, FileCache files) "
         "are compared with the model; the oracle re-reads every recorded value. distinct = distinct history texts; "
@@ -128,14 +133,19 @@ def gen_case(rng, nops, datalen):
         if k < 0.45:
             mn = rng.choice([0, 0, n + 33 - 1, n + 33, n + 33 + 1, 100, 10 ** 9])
             mx = rng.choice([n - 1, n, n + 1, 10, 10 ** 9, 10 ** 9, 10 ** 9])
-            ops.append(("record", i, max(mn, 0), max(mx, 0)))
+            ops.append(("record", i, max(mn, 0), max(mx, 0), rng.randrange(2)))
+        elif k < 0.70:
+            ops.append(("get", i, rng.randrange(2)))
         elif k < 0.75:
-            ops.append(("get", i))
+            ops.append(("getaway", i, rng.randrange(2)))
+            ops.append(("get", i, rng.randrange(2)))
         elif k < 0.86:
             ops.append(("dropstore", i))
             if rng.random() < 0.5:
-                ops.append(("record", i, rng.choice([0, 0, n + 33, 10 ** 9]), 10 ** 9))
-                ops.append(("get", i))
+                a = rng.randrange(2)
+                ops.append(("get", i, a))                       # backend a sees the object missing ...
+                ops.append(("record", i, rng.choice([0, 0, n + 33, 10 ** 9]), 10 ** 9, rng.randrange(2)))   # ... someone re-records
+                ops.append(("get", i, a))
         elif k < 0.93:
             blobs = [j for j, v in enumerate(vals) if v[0] == "blob"]
             ops.append(("dropfc", rng.choice(blobs)) if blobs else ("get", i))
@@ -164,6 +174,15 @@ CORPUS = [
                                                            ("dropfc", 0), ("get", 0)]),
     # recorded twice under different configurations
     dict(store=True, vals=[("py", {"a": 1})], ops=[("record", 0, BIG, BIG), ("record", 0, 0, BIG), ("get", 0), ("record", 0, BIG, BIG), ("get", 0)]),
+    # two backends on one database + one store: A records, the object is deleted, A reads absent, B re-records it,
+    # A re-records (a no-op for A: the object exists), A must read the value back
+    dict(store=True, vals=[("py", b"w" * 60)], ops=[("record", 0, 0, BIG, 0), ("get", 0, 0), ("dropstore", 0), ("get", 0, 0), ("record", 0, 0, BIG, 1),
+                                                       ("get", 0, 1), ("record", 0, 0, BIG, 0), ("get", 0, 0)]),
+    dict(store=True, vals=[("blob", b"shared")], ops=[("record", 0, 0, BIG, 1), ("dropstore", 0), ("get", 0, 0), ("get", 0, 1), ("record", 0, 0, BIG, 0),
+                                                        ("get", 0, 1), ("get", 0, 0)]),
+    # the store directory is moved away during one read and moved back: absent then, present afterwards
+    dict(store=True, vals=[("py", "v" * 70), ("py", [1, 2])], ops=[("record", 0, 0, BIG, 0), ("record", 1, BIG, BIG, 0), ("getaway", 0, 0), ("getaway", 1, 0),
+                                                                    ("get", 0, 0), ("get", 0, 1), ("getaway", 0, 1), ("record", 0, 0, BIG, 1), ("get", 0, 1)]),
     # never recorded
     dict(store=True, vals=[("py", 5), ("blob", b"")], ops=[("get", 0), ("get", 1), ("dropstore", 0), ("record", 1, 0, BIG), ("get", 1)]),
 ]
@@ -193,8 +212,13 @@ class Real:
                 self.pre[d] = bytes(data)
             return d
         rv.hash_tag_bytes = htb
-        self.backend = RedunBackendDb(db_uri="sqlite:///:memory:")
-        self.backend.load()
+        # two backends ("processes") sharing one sqlite file and one value store directory; each has its own ValueStore
+        # object, session and engine
+        uri = "sqlite:///" + os.path.join(self.root, "redun.db")
+        self.backends = [RedunBackendDb(db_uri=uri), RedunBackendDb(db_uri=uri)]
+        for be in self.backends:
+            be.load()
+        self.backend = self.backends[0]
 
     def close(self):
         self.rv.hash_tag_bytes = self._orig_htb
@@ -207,7 +231,10 @@ class Real:
         for d in (self.vs_dir, self.fc_dir):
             shutil.rmtree(d, ignore_errors=True)
         os.makedirs(self.fc_dir)
-        b.value_store = self.ValueStore(self.vs_dir) if store else None
+        shutil.rmtree(self.vs_dir + ".away", ignore_errors=True)
+        for be in self.backends:
+            be.session.rollback()
+            be.value_store = self.ValueStore(self.vs_dir) if store else None
         self.kind = {}                      # digest -> "T"/"F" (FileCache kind or not)
 
     def obj(self, v):
@@ -241,6 +268,7 @@ class Real:
 
     def dump(self):
         b = self.backend
+        b.session.rollback()
         rows = sorted("(%s %s)" % (self.r_key(r.value_hash), "placeholder" if len(r.value) == 0 else "inline")
                       for r in b.session.query(self.ValueRow).all())
         st = []
@@ -288,6 +316,8 @@ def model_lines(real, case):
             per_op.append("(record %s i%d i%d)" % (mval(vals[op[1]]), op[2], op[3]))
         elif k == "get":
             per_op.append("(get %s)" % mkey(vals[op[1]]))
+        elif k == "getaway":
+            per_op.append("(getaway %s)" % mkey(vals[op[1]]))
         elif k == "dropstore":
             per_op.append("(dropstore %s)" % mkey(vals[op[1]]))
         elif k == "dropfc":
@@ -313,6 +343,8 @@ def run_case(ctx, real, case, replies, n_pre, per_op, label):
     diverged = False
     for n, op in enumerate(case["ops"]):
         k = op[0]
+        who = {"record": 4, "get": 2, "getaway": 2}.get(k)
+        b = real.backends[op[who] if who is not None and len(op) > who else 0]
         before = real.dump()
         if k == "record":
             v = vals[op[1]]
@@ -374,16 +406,27 @@ def run_case(ctx, real, case, replies, n_pre, per_op, label):
                     if after.split(" (fc")[0] != before.split(" (fc")[0]:
                         ctx.violation("C31-too-large-wrote-state", "a rejected (too large) value left rows or store files behind",
                                       case=jcase, expected=before, actual=after, kind="history")
-        elif k == "get":
+        elif k in ("get", "getaway"):
             v = vals[op[1]]
             dg = real.digest(v)
+            away = k == "getaway" and os.path.isdir(real.vs_dir)
             try:
-                got, ok = b.get_value(dg)
+                if away:
+                    os.rename(real.vs_dir, real.vs_dir + ".away")     # the store is unreachable during this read
+                try:
+                    got, ok = b.get_value(dg)
+                finally:
+                    if away:
+                        os.rename(real.vs_dir + ".away", real.vs_dir)
+                if away and not ok:
+                    dropped_now = True
+                else:
+                    dropped_now = False
                 out = real.r_val(got) if ok else "absent"
                 if ok and real.pickle_dumps(got) != real.payload(v):
                     ctx.violation("C31-read-returns-different-value", "get_value(h) returned a value that is not the value with "
                                   "hash h", case=jcase, expected=repr(v), actual=repr(got)[:200], kind="history")
-                if not ok and dg in recorded and dg not in dropped:
+                if not ok and dg in recorded and dg not in dropped and not dropped_now:
                     ctx.violation("C31-recorded-value-absent", "a recorded value whose bytes were never deleted reads as absent",
                                   case=jcase, expected=repr(v), actual="absent", kind="history")
                 if ok and dg not in recorded:
@@ -413,11 +456,14 @@ def run_case(ctx, real, case, replies, n_pre, per_op, label):
                 lost_fc.add(real.digest(v))
             out = "ok"
         elif k == "attach":
-            if b.value_store is None:
-                b.value_store = real.ValueStore(real.vs_dir)
+            for be in real.backends:
+                if be.value_store is None:
+                    be.value_store = real.ValueStore(real.vs_dir)
             out = "ok"
         else:
             raise ValueError(op)
+        for be in real.backends:
+            be.session.rollback()            # end any open read transaction, expire cached rows
         dump = real.dump()
         m_out, m_dump = next(it), next(it)
         if not diverged and (out != m_out or dump != m_dump):
@@ -512,7 +558,7 @@ def run(ctx):
         real.reset(False)
         cases = [("corpus-%d" % i, concretise(real, c)) for i, c in enumerate(CORPUS)]
         rng = ctx.rng
-        for i in range(ctx.n(400, 6000)):
+        for i in range(ctx.n(220, 4000)):
             cases.append(("gen-%d" % i, gen_case(rng, rng.choice([6, 8, 10, 14]), lambda v: len(real.data(v)))))
         run_cases(ctx, real, cases)
     finally:
